@@ -185,9 +185,41 @@ static void rt_event(const JSON& tree, uint32_t opts) {
   else copy = JSON("changed");
   if (copy.is_list() && copy.size() > 1 && copy.at(0).is_list()) copy.at(0).emplace_back(JSON(nullptr));
   bool copydeep = dump(tree) == before;
+  // copy ASSIGNMENT onto destinations that already hold something: a dict sharing and not sharing keys with the source,
+  // a list, a scalar, and an element nested inside a container; each must become a value equal to the source
+  string assigned = "[";
+  {
+    vector<JSON> dsts;
+    JSON d1 = JSON::dict();
+    d1.emplace("stale", JSON((int64_t)999));
+    if (tree.is_dict())
+      for (const auto& it : tree.as_dict()) {
+        d1.emplace(it.first, JSON("old"));
+        break;
+      }
+    dsts.push_back(std::move(d1));
+    JSON l1 = JSON::list();
+    l1.emplace_back(JSON((int64_t)1));
+    l1.emplace_back(JSON("x"));
+    dsts.push_back(std::move(l1));
+    dsts.push_back(JSON(2.5));
+    dsts.push_back(JSON("str"));
+    for (size_t i = 0; i < dsts.size(); i++) {
+      dsts[i] = tree;
+      assigned += (i ? "," : "") + dump(dsts[i]);
+    }
+    JSON outer = JSON::list();
+    JSON inner = JSON::dict();
+    inner.emplace("stale", JSON(true));
+    outer.emplace_back(std::move(inner));
+    outer.at(0) = tree;
+    assigned += "," + dump(outer.at(0));
+    assigned += "]";
+    if (dump(tree) != before) copydeep = false;
+  }
   vt::J j;
   j.str("e", "rt").num("opts", opts).raw("tree", before).raw("text", js(text)).raw("pdef", res_json(pd)).raw("pstrict", res_json(ps));
-  j.num("resort", resort).num("copyeq", copyeq).num("copydeep", copydeep);
+  j.num("resort", resort).num("copyeq", copyeq).num("copydeep", copydeep).raw("assigned", assigned);
   tr.emit(j);
 }
 
